@@ -249,7 +249,8 @@ def validate_traces(module, traces, cfg=None, timeout=3600, env=None, chunk=1500
             part = traces[base:base + chunk]
             path = os.path.join(scratch, "traces-%d.json" % base)
             with open(path, "w") as f:
-                json.dump(part, f)
+                # 'concrete' (how to re-run the case) is for the replay file only
+                json.dump([{k: v for k, v in t.items() if k != "concrete"} for t in part], f)
             e = {"TRACE_FILE": path}
             if env:
                 e.update(env)
